@@ -35,6 +35,7 @@ type Case struct {
 type Finding struct{ Sig, Msg string }
 
 type Stats struct {
+	Nested int // renders started from inside a pixel of the render under test
 	Steps, Preempt, Tasks int
 	TraceHash             string
 	Workers, Pixels       int
@@ -77,6 +78,15 @@ type castObj struct {
 	bounded    bool
 	bmin, bmax model3d.Coord3D
 	missed     int
+	// nested renders: for some samples Cast renders a small picture of another
+	// scene before it answers (an object that shows a picture).  Render has no
+	// restriction on being called from a goroutine that is itself a render worker.
+	nestEvery uint64
+	inner     render3d.Object
+	innerCam  *render3d.Camera
+	innerRef  []render3d.Color // the picture as rendered alone, before the simulation
+	nested    int
+	nestBad   string
 
 	mu      simsched.Mu
 	hist    [][]sample
@@ -193,6 +203,18 @@ func (o *castObj) note(unknown bool) {
 	o.mu.Unlock()
 }
 
+//go:norace
+func (o *castObj) noteNested(pic []render3d.Color) {
+	o.mu.Lock()
+	defer o.mu.Unlock()
+	o.nested++
+	for i, c := range pic {
+		if c != o.innerRef[i] && o.nestBad == "" {
+			o.nestBad = fmt.Sprintf("pixel %d of the nested picture is %v, rendered alone it is %v", i, c, o.innerRef[i])
+		}
+	}
+}
+
 func (o *castObj) pixelOf(r *model3d.Ray) int {
 	if o.aa == 0 {
 		k := [3]uint64{math.Float64bits(r.Direction.X), math.Float64bits(r.Direction.Y), math.Float64bits(r.Direction.Z)}
@@ -227,6 +249,11 @@ func (o *castObj) Cast(r *model3d.Ray) (model3d.RayCollision, render3d.Material,
 	v, j := o.record(p)
 	if o.yieldEvery != 0 && choice.Derive(o.salt, fmt.Sprint("y", p, j))%o.yieldEvery == 0 {
 		simsched.Yield("object.cast", p)
+	}
+	if o.nestEvery != 0 && choice.Derive(o.salt, fmt.Sprint("n", p, j))%o.nestEvery == 0 {
+		pic := render3d.NewImage(2, 2)
+		(&render3d.RayCaster{Camera: o.innerCam}).Render(pic, o.inner)
+		o.noteNested(pic.Data)
 	}
 	return model3d.RayCollision{Scale: 1, Normal: r.Direction.Normalize().Scale(-1)},
 		&render3d.LambertMaterial{EmissionColor: v}, true
@@ -360,7 +387,20 @@ func RunCase(t *testing.T, c *Case, work, sched *choice.Source, st *Stats) (fs [
 	if huge {
 		knobs["hook.stride"], knobs["auto.stride"] = 64, 64
 	}
-	res := simsched.Run(t, simsched.Config{Src: sched, Sticky: sticky, Knobs: knobs, Policy: simsched.DrawPolicy(sched)}, func() {
+	pol := simsched.DrawPolicy(sched)
+	// (auxiliary tape) nested renders: one case in eight
+	if aux := sched.Aux(); !huge && aux.Intn(8) == 7 {
+		obj.nestEvery = uint64([]int{1, 1, 2, 5, 17}[aux.Intn(5)])
+		obj.inner = &render3d.ColliderObject{Collider: &model3d.Sphere{Center: model3d.XYZ(0, 3, 0), Radius: 1.5},
+			Material: &render3d.LambertMaterial{EmissionColor: render3d.NewColorRGB(0.25, 0.5, 0.75), AmbientColor: render3d.NewColorRGB(0.1, 0.2, 0.3)}}
+		obj.innerCam = render3d.NewCameraAt(model3d.XYZ(0, 0, 0), model3d.XYZ(0, 1, 0), math.Pi/3)
+		ref := render3d.NewImage(2, 2)
+		(&render3d.RayCaster{Camera: obj.innerCam}).Render(ref, obj.inner)
+		obj.innerRef = ref.Data
+		st.probe("nested renders (Cast renders a picture of another scene)")
+		st.Desc += fmt.Sprintf(" nested-render-every=%d", obj.nestEvery)
+	}
+	res := simsched.Run(t, simsched.Config{Src: sched, Sticky: sticky, Knobs: knobs, Policy: pol}, func() {
 		switch renderer {
 		case 0, 1:
 			(&render3d.RecursiveRayTracer{Camera: cam, MaxDepth: 0, NumSamples: numSamples, MinSamples: minSamples, MaxStddev: maxStddev,
@@ -388,6 +428,10 @@ func RunCase(t *testing.T, c *Case, work, sched *choice.Source, st *Stats) (fs [
 	if logBad != "" {
 		fs = append(fs, Finding{"logfunc", st.Desc + ": " + logBad})
 	}
+	if obj.nestBad != "" {
+		fs = append(fs, Finding{"nested-render", st.Desc + ": " + obj.nestBad})
+	}
+	st.Nested = obj.nested
 	wantN := numSamples
 	if renderer == 2 {
 		wantN = 1
